@@ -23,16 +23,25 @@
         vote is signed for the height and round the node is in (`signAddVote`), so the votes of a
         run are in non-decreasing (height, round) order - a lock taken in round r is never followed
         by a vote of an earlier round;
-    L7  a commit is emitted only with the block's complete part set (C08.X10).
+    L7  a commit is emitted only with the block's complete part set (C08.X10);
+    L8  L1 lifted to the history (Lemmas/NodeJust.lean): every own precommit for a block that is in
+        the node's queue - every vote the node signs passes through it - names a block for which
+        the node's prevote set of that round reports +2/3, in every state of every run from a fresh
+        node, for every vote set content peers can produce - for every run whose timeouts are
+        ones the node scheduled (`Scheduled`: the ticker relays nothing else). That such a run
+        never fires a timeout for a round the node has not entered is itself proved
+        (Lemmas/NodeSched.lean: every scheduled timeout is for a round the node has entered).
 
-  PARTIAL (named): L1-L5 hold for every state and argument, reachable or not, so they hold along
-  every run; what is not mechanised is their lift to a ghost HISTORY (the vote sets are cleared by
-  the commit inside the same handler call that may have queued a vote, so "had +2/3 prevotes when
-  it was queued" needs the intermediate states of one handler call). That run-level statement is
-  checked on every run by the Go-side monitor of the c04 engine against the real node.
+  PARTIAL (named): L2/L3/L5 (prevote and proposal follow the lock; the lock is released only by a
+  later polka) hold for every state and argument, reachable or not, so they hold along every run;
+  their lift to a ghost history ("the lock held at round r was taken on a polka and no later polka
+  released it") is not mechanised and is checked on every run by the Go-side monitor of the c04
+  engine against the real node.
 -/
 import AnnVerif.Model.Node
 import AnnVerif.Lemmas.NodeMono
+import AnnVerif.Lemmas.NodeJust
+import AnnVerif.Lemmas.NodeSched
 namespace AnnVerif.C04
 open AnnVerif AnnVerif.Node
 
@@ -264,5 +273,45 @@ theorem run_commits_complete_blocks (height : Int) (vals : ValSet.ValSet) (me : 
 example : Le (Node.init repaired 1 v4 (some 1) false) demo ∧ demo.step = .precommit := by
   refine ⟨?_, by decide⟩
   unfold Le; decide
+
+/-! ### L8: no precommit without a polka, over every run -/
+
+/-- in every state of every run (timeouts only for rounds the node has entered) every own
+    precommit for a block that waits in the node's queue, signed at the node's height, names the
+    block that has +2/3 prevotes in the node's prevote set of the vote's round -/
+theorem run_no_precommit_without_polka (cfg : Cfg) (height : Int) (vals : ValSet.ValSet) (me : Option Nat)
+    (skip : Bool) (ins : List In) (hok : RunOK (Node.init cfg height vals me skip) ins)
+    (v : VoteSet.Vote) (ok : Bool)
+    (hq : Msg.vote v ok ∈ (ins.foldl stepIn (Node.init cfg height vals me skip)).queue)
+    (ht : v.type = 2) (hh : v.height = (ins.foldl stepIn (Node.init cfg height vals me skip)).height)
+    (hb : v.bid.hash.isEmpty = false) :
+    maj23 (prevotes (ins.foldl stepIn (Node.init cfg height vals me skip)) v.round) = some v.bid :=
+  (run_qj ins _ (init_qj cfg height vals me skip) hok _ hq).2 ht hh hb
+
+/-- L8 for the runs that happen: every timeout that fires is one the node scheduled -/
+theorem run_no_precommit_without_polka_scheduled (cfg : Cfg) (height : Int) (vals : ValSet.ValSet) (me : Option Nat)
+    (skip : Bool) (ins : List In) (hs : Scheduled (Node.init cfg height vals me skip) ins)
+    (v : VoteSet.Vote) (ok : Bool)
+    (hq : Msg.vote v ok ∈ (ins.foldl stepIn (Node.init cfg height vals me skip)).queue)
+    (ht : v.type = 2) (hh : v.height = (ins.foldl stepIn (Node.init cfg height vals me skip)).height)
+    (hb : v.bid.hash.isEmpty = false) :
+    maj23 (prevotes (ins.foldl stepIn (Node.init cfg height vals me skip)) v.round) = some v.bid :=
+  run_no_precommit_without_polka cfg height vals me skip ins
+    (runOK_of_scheduled ins _ (init_sched cfg height vals me skip) hs) v ok hq ht hh hb
+
+/-- every timeout a node has scheduled, in any run, is for a round it has entered -/
+theorem scheduled_timeouts_not_ahead (cfg : Cfg) (height : Int) (vals : ValSet.ValSet) (me : Option Nat)
+    (skip : Bool) (ins : List In) (h r : Int) (s : Step)
+    (he : Emit.timeout h r s ∈ (ins.foldl stepIn (Node.init cfg height vals me skip)).out) :
+    NotAhead (ins.foldl stepIn (Node.init cfg height vals me skip)) h r :=
+  sched_run ins _ (init_sched cfg height vals me skip) _ he
+
+/-- the invariant is inductive from any state that satisfies it -/
+theorem step_keeps_precommits_justified (n : Node) (i : In) (q : QJ n) (hw : WellTimed n i) : QJ (stepIn n i) :=
+  qj_stepIn n i q hw
+
+/-- non-vacuity: in `demo` the own precommit for "b" sits in the queue... after the drain it has
+    been handled; one step earlier it is there, and the polka is in the prevote set -/
+example : maj23 (prevotes demo 0) = some (bidOf [0x62]) := by decide
 
 end AnnVerif.C04
